@@ -159,6 +159,26 @@ CLAIMED = {
             "deterministic simulation: seeded scheduler + race detector under serialised schedules over compositions of real nodes", "4 C19"),
 }
 
+# dimensions added by the seeded-change waves h and i (DESIGN.md C5), appended to the level text
+ADDENDA = {
+    "C01": "Now and then one event type has 13-40 pipelines; histories contain removals of unknown ids.",
+    "C02": "Now and then one event type has 13-40 pipelines (more completions than any fixed-size buffer).",
+    "C03": "A root node may send an event of its own type from Process (bounded chain).",
+    "C04": "Callers overwrite the NodeIDs slice they passed once RegisterPipeline has returned (history and race detector see a retained slice).",
+    "C06": "One node instance may be registered under two ids (accounting is per id); by-value nodes of non-comparable types are registered too.",
+    "C07": "Threshold setters (which create an event type's graph) are part of the concurrent histories.",
+    "C09": "IgnoreTypes may list named look-alikes of ordinary field types and an interface type that no value has: only values of exactly a listed type are exempt.",
+    "C11": "Group ids differ in surrounding white space only; Reopen calls are part of the histories.",
+    "C12": "Wrappers that unwrap to nil, failing expiry flushes and every nesting kind are covered; a run that never yields is reported as livelock.",
+    "C13": "Writer failures that are io.EOF, consecutive zero-byte failures and absent channel consumers are injected.",
+    "C15": "File names whose extension text also occurs earlier in the name (ev.login.log, ev.log.log, v1.0.1.0) with a sibling sink's rotated file as decoy; negative MaxDuration.",
+    "C16": "Event ids carry leading / trailing white space (the derived key depends on the exact id); partial rotations race in scenario encrypt-rotate-partial.",
+    "C17": "Reopen calls are part of the histories: they must leave the gate as it is.",
+    "C18": "Injected signer failures may be panics (Process is called under recover: a propagating panic is accepted, an unsigned document is not); a pre-occupied format slot must be replaced.",
+    "C19": "Two FileSink nodes configured for one file (whole lines rely on appending writes); the channel consumer may be away or absent.",
+    "C20": "Event types and pipeline ids collide under concatenation ('ta'+'p/0' vs 'ta/p'+'0'); threshold setters create graphs that Reopen must also walk.",
+}
+
 PENDING = ["C04", "C05", "C06", "C07", "C08", "C09", "C10", "C11", "C12", "C13", "C14", "C15", "C16", "C17", "C18", "C19", "C20"]
 
 
@@ -166,6 +186,8 @@ def main():
     checks = []
     for pid in sorted(CLAIMED):
         level, text, note, tech, ref = CLAIMED[pid]
+        if pid in ADDENDA:
+            text = text.rstrip() + " " + ADDENDA[pid]
         checks.append({
             "property_id": pid,
             "quick_cmd": "./check %s --tier quick" % pid,
